@@ -1251,6 +1251,22 @@ pub(crate) fn verify_mmr_proof<'a, T: Iterator<Item = &'a HeaderView>>(
         return Err(StatusCode::InvalidProof.with_context(errmsg));
     }
     {
+        // The MMR library silently drops all but one of the leaves which have the same
+        // position, so an unproven header could hide behind a proven header at the same height.
+        let mut numbers = headers
+            .iter()
+            .map(|header| header.number())
+            .collect::<Vec<_>>();
+        numbers.sort_unstable();
+        if let Some(pair) = numbers.windows(2).find(|pair| pair[0] == pair[1]) {
+            let errmsg = format!(
+                "failed to verify the proof since there are more than one headers for block-{}",
+                pair[0],
+            );
+            return Err(StatusCode::InvalidProof.with_context(errmsg));
+        }
+    }
+    {
         // Each input is merged once at most, so the total difficulty of any merged item is
         // not greater than the sum of all inputs.
         let mut total_difficulty = Some(U256::zero());
